@@ -377,9 +377,47 @@ def slts_step_case(iv):
     return c
 
 
+def frame_cases(tier):
+    """what the stubbed-physics driver cases above rely on: solving a step leaves every step counter and every history alone.
+    The component / locomotive step harnesses of C08 and C01 (engine on and off, all demands) are run with that frame claim."""
+    import C08
+    import C01
+    out = []
+    src = [c for c in C08.m_cases("quick") if c.recv_ty in ("FuelConverter", "Generator", "ElectricDrivetrain", "ReversibleEnergyStorage")]
+    src += [C01.conv_loco_case(2), C01.bel_loco_case(2)]
+    for c in src:
+        if c.recv_ty == "Locomotive":
+            kind = "conv" if "conv" in c.name else "bel"
+            paths = [""] + [p + "." for p in loco_paths(kind)]
+        else:
+            paths = [""]
+
+        def frame(ctx, paths=paths):
+            return AND(*[XEQ(ctx.post[p + "state.i"], ctx.pre[p + "state.i"]) for p in paths], *[_eq_int(ctx, hlen(ctx, p + "history"), 0) for p in paths])
+        # an arbitrary step counter (a counter reset to its default 1 must show)
+        if c.recv_ty == "Locomotive":
+            c.recv["state"]["i"] = I0
+            comp = c.recv["loco_type"].payload[0]
+            for k in comp:
+                if k in ("fc", "gen", "res", "edrv"):
+                    comp[k]["state"]["i"] = I0
+        else:
+            c.recv["state"]["i"] = I0
+        old_assume = c.assume
+        c.assume = (lambda S, old=old_assume: (old(S) if old else []) + [("step counter i0 >= 2", z3.And(S["i0"] >= 2, S["i0"] < 2**32))])
+        c.prop = "C19"
+        c.name = "frame_" + c.name
+        c.claims = [Claim("solving a step leaves step counters and histories untouched (accepted steps)", frame, when="ok", role="solve_leaves_counters"),
+                    Claim("solving a step leaves step counters and histories untouched (rejected steps)", frame, when="err", role="solve_leaves_counters_on_error")]
+        c.check_side = False
+        c.no_tv = True
+        out.append(c)
+    return out
+
+
 def m_cases(tier):
     tier = "thorough"  # the full case list is cheap enough to run on every change (the tiers differ only in validation vectors)
-    cs = []
+    cs = frame_cases(tier)
     cs += [sim_walk_case("loco", "C", 1), sim_walk_case("loco", "B", 2), sim_walk_case("loco", "H", None), sim_walk_case("consist", "CB", 1), sim_walk_case("consist", "HB", 2)]
     cs += [slts_step_case(None), slts_step_case(1), slts_step_case(3)]
     if tier == "thorough":
